@@ -273,6 +273,17 @@ M('c02-guard-flipped', ['C02'], Y23 + 'f1040.py', "FloatField('34', lambda s, i,
 M('c02-reordered-summands', ['C02'], Y23 + 'f1040.py', "FloatField('14', lambda s, i, v: v['12'] + v['13']),", "FloatField('14', lambda s, i, v: float(v['13'] + v['12'])),", None, 'summands reordered and wrapped in float()', 'silent')
 M('c02-guarded-floor', ['C02'], Y23 + 'f1040.py', "FloatField('22', lambda s, i, v: max(0.0, v['18'] - v['21'])),", "FloatField('22', lambda s, i, v: v['18'] - v['21'] if v['18'] > v['21'] else 0.0),", None, 'floor written as a guarded subtraction', 'silent')
 
+# ------------------------------------------------------------------ K27 (the failure report names every item)
+M('k27-report-first-six', ['C01', 'C05'], CLI, "                print(f'{dependency} (needed by: {\", \".join(dependents)})')\n        if len(unmet_field_dependencies) > 0:", "                print(f'{dependency} (needed by: {\", \".join(dependents[:6])})')\n        if len(unmet_field_dependencies) > 0:", 'K27', 'only the first six waiting lines are named: which six depends on the attempt order (seed C05-D)')
+M('k27-report-first-unimplemented', ['C01', 'C05'], CLI, "            for unimplemented in unimplemented_fields:\n", "            for unimplemented in unimplemented_fields[:1]:\n", 'K27', 'only the first unimplemented line is named')
+M('k27-report-sorted-unique', ['C01', 'C05'], CLI, "                print(f'{dependency} (needed by: {\", \".join(dependents)})')\n        if len(unmet_field_dependencies) > 0:", "                print(f'{dependency} (needed by: {\", \".join(sorted(set(dependents)))})')\n        if len(unmet_field_dependencies) > 0:", None, 'dependents printed sorted and without repeats', 'silent')
+
+# ------------------------------------------------------------------ K26 (the CLI requests exactly the named forms)
+M('k26-form-option-default', ['C04'], CLI, "solve_parser.add_argument('--form', dest='forms', action='append', help=", "solve_parser.add_argument('--form', dest='forms', action='append', default=['1040'], help=", 'K26', 'argparse appends the named forms to a preset list: Form 1040 is solved although not requested (seed C04-D)')
+M('k26-request-extended', ['C04'], CLI, "        successful = s.solve(args.forms)\n", "        successful = s.solve(args.forms + ['1040'])\n", 'K26', 'the CLI adds a form to the request')
+M('k26-request-edited', ['C04'], CLI, "        successful = s.solve(args.forms)\n", "        args.forms.append('1040_sb')\n        successful = s.solve(args.forms)\n", 'K26', 'the CLI edits the request before solving')
+M('k26-request-copied', ['C04'], CLI, "        successful = s.solve(args.forms)\n", "        successful = s.solve(list(args.forms))\n", None, 'the request is copied', 'silent')
+
 # ------------------------------------------------------------------ K24e (waiter lists changed only by the tracker)
 M('k24e-prompt-context-truncated', ['C01', 'C06'], S, "        value, supplied = self._prompt(missing, needed_by)\n", "        del needed_by[8:]\n        value, supplied = self._prompt(missing, needed_by)\n", 'K24e', 'the list handed to the prompt is the tracker\'s own list and is truncated in place (seed C01-C)')
 M('k24e-prompt-sorts-in-place', ['C01', 'C06'], CLI, "    prompt = f'\\n----[ {missing.name()} ]----'\n", "    needed_by.sort(key=lambda f: f.name())\n    needed_by.pop()\n    prompt = f'\\n----[ {missing.name()} ]----'\n", 'K24e', 'the CLI prompt callback pops from the waiter list it was handed')
